@@ -212,7 +212,9 @@ def specs(draw):
         # glyph names with characters that XML, file systems and case-insensitive comparison treat specially (they are
         # legal in post format 2 and in a CFF charset); names that differ only in such characters or only in case
         pool = ['quote"dbl', "amp&er", "lt<gt>", "apos'x", "f*i", "f_i", "T_x", "T*x", "T?x", "back\\slash", "semi;colon", "hash#1", "A", "a", "percent%41", "f|i", "caf\u00e9"[:3] + "e", "x.y.z", "_", "CON", "com1"]
-        picked = draw(st.permutations(pool))[: ng - 1]
+        # names that collide as file names come first, so that small fonts have a colliding pair too
+        group = draw(st.sampled_from([["f*i", "f_i", "f|i"], ["T_x", "T*x", "T?x"], ["A", "a"], ["CON", "com1"], ['quote"dbl', "amp&er"]]))
+        picked = (group + [x for x in draw(st.permutations(pool)) if x not in group])[: ng - 1]
         ren = dict(zip(names[1:], picked))
         names = [names[0]] + [ren[n] for n in names[1:]]
         if kind in ("glyf", "var"):
